@@ -148,13 +148,102 @@ fn gen_slots(m: usize, mag: f64, seed: u64) -> (Vec<f64>, Vec<f64>) {
     (re, im)
 }
 
+thread_local! {
+    /// name of the library operation being executed (attribution of a panic in exact-scratch mode)
+    pub static LAST_OP: std::cell::Cell<&'static str> = const { std::cell::Cell::new("") };
+}
+
+const GUARD: usize = 256;
+
+/// Scratch provider: roomy (C16) or, for C12, a fresh 64-byte aligned window of exactly the queried
+/// number of bytes inside guard regions, filled with seed-dependent garbage.
+pub struct Sx {
+    exact: bool,
+    fill: u64,
+    roomy: ScratchOwned<B>,
+    buf: Vec<u8>,
+    off: usize,
+    len: usize,
+    pub guard_damaged: bool,
+    pub windows: usize,
+    pub nonzero_windows: usize,
+}
+
+impl Sx {
+    pub fn new(exact: bool, fill: u64, roomy_bytes: usize) -> Sx {
+        Sx { exact, fill, roomy: ScratchOwned::<B>::alloc(roomy_bytes), buf: vec![], off: 0, len: 0, guard_damaged: false, windows: 0, nonzero_windows: 0 }
+    }
+    fn check_guards(&mut self) {
+        if self.buf.is_empty() {
+            return;
+        }
+        let (o, l) = (self.off, self.len);
+        let ok = self.buf[o - GUARD..o].iter().enumerate().all(|(i, x)| *x == (0xA5 ^ i as u8)) && self.buf[o + l..o + l + GUARD].iter().enumerate().all(|(i, x)| *x == (0x5A ^ i as u8));
+        if !ok {
+            self.guard_damaged = true;
+        }
+    }
+    pub fn roomy(&mut self) -> &mut poulpy_hal::layouts::Scratch<B> {
+        self.roomy.borrow()
+    }
+    pub fn get(&mut self, q: impl FnOnce() -> usize) -> &mut poulpy_hal::layouts::Scratch<B> {
+        use poulpy_hal::api::ScratchFromBytes;
+        if !self.exact {
+            return self.roomy.borrow();
+        }
+        self.check_guards();
+        let bytes = q();
+        self.windows += 1;
+        if bytes > 0 {
+            self.nonzero_windows += 1;
+        }
+        self.buf = vec![0u8; bytes + 2 * GUARD + 64];
+        let base = self.buf.as_ptr() as usize;
+        let off = GUARD + (64 - (base + GUARD) % 64) % 64;
+        let mut x = self.fill ^ (self.windows as u64).wrapping_mul(0x9E3779B97F4A7C15);
+        for v in self.buf.iter_mut() {
+            x ^= x << 13;
+            x ^= x >> 7;
+            x ^= x << 17;
+            *v = x as u8;
+        }
+        for i in 0..GUARD {
+            self.buf[off - GUARD + i] = 0xA5 ^ i as u8;
+            self.buf[off + bytes + i] = 0x5A ^ i as u8;
+        }
+        self.off = off;
+        self.len = bytes;
+        poulpy_hal::layouts::Scratch::<B>::from_bytes(&mut self.buf[off..off + bytes])
+    }
+    pub fn finish(&mut self) {
+        self.check_guards();
+    }
+}
+
+fn larger<'a>(x: &'a CKKSCiphertext<Vec<u8>>, y: &'a CKKSCiphertext<Vec<u8>>) -> &'a CKKSCiphertext<Vec<u8>> {
+    if x.max_k().as_usize() >= y.max_k().as_usize() { x } else { y }
+}
+
 pub fn run_program(c: &Case) -> Verdict {
+    let cx = ctx(c.pset as usize % 2);
+    let mut sx = Sx::new(false, 0, cx.scratch_bytes);
+    run_program_sx(c, &mut sx).0
+}
+
+/// Runs the program; returns the verdict of the C16 oracle and the final register file (metadata + raw digits).
+pub fn run_program_sx(c: &Case, sx: &mut Sx) -> (Verdict, Vec<Option<(usize, usize, Vec<i64>)>>) {
+    let mut dump = vec![];
+    let v = run_program_inner(c, sx, &mut dump);
+    sx.finish();
+    (v, dump)
+}
+
+fn run_program_inner(c: &Case, sx: &mut Sx, dump: &mut Vec<Option<(usize, usize, Vec<i64>)>>) -> Verdict {
     let cx = ctx(c.pset as usize % 2);
     let p = cx.p;
     let (n, b) = (p.n, p.base2k);
     let m = n / 2;
     let md = &cx.module;
-    let mut scratch = ScratchOwned::<B>::alloc(cx.scratch_bytes);
     let hw = p.hw as f64;
     let nf = n as f64;
     let mut regs: Vec<Option<Reg>> = (0..4).map(|_| None).collect();
@@ -168,6 +257,7 @@ pub fn run_program(c: &Case) -> Verdict {
     let trunc = |cap: usize| -> f64 { 8.0 * (1.0 + hw) * p2(-(cap as i64)) };
 
     for (step, op) in c.ops.iter().enumerate() {
+        LAST_OP.with(|l| l.set(op.name()));
         let alloc = |limbs: u8| CKKSCiphertext::alloc((n as u32).into(), ((limbs.clamp(1, 10) as usize * b) as u32).into(), (b as u32).into());
         // ---- decide, from the model, what must happen -------------------------------------
         macro_rules! get {
@@ -180,6 +270,7 @@ pub fn run_program(c: &Case) -> Verdict {
         }
         let mut new_reg: Option<(usize, Reg)> = None;
         let mut pred = Pred::Ok;
+        #[allow(unused_assignments)]
         let mut got: Option<anyhow::Result<()>> = None;
         match *op {
             Op::Enc { dst, limbs, ld, ptlb, mag_bits, seed } => {
@@ -201,7 +292,8 @@ pub fn run_program(c: &Case) -> Verdict {
                 let mut lay = glwe_layout(&p);
                 lay.k = (k_enc as u32).into();
                 let enc = EncryptionLayout::new_from_default_sigma(lay).unwrap();
-                let r = md.ckks_encrypt_sk(&mut ct, &pt, &cx.sk, &enc, &mut Source::new(seed32(seed, 3)), &mut Source::new(seed32(seed, 4)), scratch.borrow());
+                let sc = sx.get(|| md.ckks_encrypt_sk_tmp_bytes(&ct));
+                let r = md.ckks_encrypt_sk(&mut ct, &pt, &cx.sk, &enc, &mut Source::new(seed32(seed, 3)), &mut Source::new(seed32(seed, 4)), sc);
                 if let Err(e) = r {
                     return fail(step, op, "unexpected-error", format!("fresh encryption failed: {e}"));
                 }
@@ -284,10 +376,15 @@ pub fn run_program(c: &Case) -> Verdict {
                     }
                     let other = regs[rb as usize % 4].take().unwrap();
                     let me = regs[a as usize % 4].as_mut().unwrap();
+                    let sc = sx.get(|| match kind {
+                        0 => md.ckks_add_tmp_bytes(),
+                        1 => md.ckks_sub_tmp_bytes(),
+                        _ => md.ckks_mul_tmp_bytes(larger(&me.ct, &other.ct), &cx.tsk),
+                    });
                     let r = match kind {
-                        0 => md.ckks_add_assign(&mut me.ct, &other.ct, scratch.borrow()),
-                        1 => md.ckks_sub_assign(&mut me.ct, &other.ct, scratch.borrow()),
-                        _ => md.ckks_mul_assign(&mut me.ct, &other.ct, &cx.tsk, scratch.borrow()),
+                        0 => md.ckks_add_assign(&mut me.ct, &other.ct, sc),
+                        1 => md.ckks_sub_assign(&mut me.ct, &other.ct, sc),
+                        _ => md.ckks_mul_assign(&mut me.ct, &other.ct, &cx.tsk, sc),
                     };
                     regs[rb as usize % 4] = Some(other);
                     if r.is_ok() {
@@ -299,10 +396,15 @@ pub fn run_program(c: &Case) -> Verdict {
                     let _ = dsti;
                 } else {
                     let mut ct = alloc((cap / b) as u8);
+                    let sc = sx.get(|| match kind {
+                        0 => md.ckks_add_tmp_bytes(),
+                        1 => md.ckks_sub_tmp_bytes(),
+                        _ => md.ckks_mul_tmp_bytes(larger(&ct, larger(&ra.ct, &rbb.ct)), &cx.tsk),
+                    });
                     let r = match kind {
-                        0 => md.ckks_add_into(&mut ct, &ra.ct, &rbb.ct, scratch.borrow()),
-                        1 => md.ckks_sub_into(&mut ct, &ra.ct, &rbb.ct, scratch.borrow()),
-                        _ => md.ckks_mul_into(&mut ct, &ra.ct, &rbb.ct, &cx.tsk, scratch.borrow()),
+                        0 => md.ckks_add_into(&mut ct, &ra.ct, &rbb.ct, sc),
+                        1 => md.ckks_sub_into(&mut ct, &ra.ct, &rbb.ct, sc),
+                        _ => md.ckks_mul_into(&mut ct, &ra.ct, &rbb.ct, &cx.tsk, sc),
                     };
                     if r.is_ok() {
                         if let Some(sh) = res_sh {
@@ -427,14 +529,22 @@ pub fn run_program(c: &Case) -> Verdict {
                 if assign || k9 >= 7 {
                     let me = regs[a as usize % 4].as_mut().unwrap();
                     let before = me.ct.meta();
+                    let sc = sx.get(|| match k9 {
+                        1 => md.ckks_square_tmp_bytes(&me.ct, &cx.tsk),
+                        2 => md.ckks_mul_pow2_tmp_bytes(),
+                        4 => md.ckks_rotate_tmp_bytes(&me.ct, conj_key),
+                        5 => md.ckks_conjugate_tmp_bytes(&me.ct, conj_key),
+                        6 => md.ckks_rescale_tmp_bytes(),
+                        _ => 0,
+                    });
                     let r = match k9 {
                         0 => md.ckks_neg_assign(&mut me.ct),
-                        1 => md.ckks_square_assign(&mut me.ct, &cx.tsk, scratch.borrow()),
-                        2 => md.ckks_mul_pow2_assign(&mut me.ct, bits, scratch.borrow()),
+                        1 => md.ckks_square_assign(&mut me.ct, &cx.tsk, sc),
+                        2 => md.ckks_mul_pow2_assign(&mut me.ct, bits, sc),
                         3 => md.ckks_div_pow2_assign(&mut me.ct, bits),
-                        4 => md.ckks_rotate_assign(&mut me.ct, rot_k, &cx.atks, scratch.borrow()),
-                        5 => md.ckks_conjugate_assign(&mut me.ct, conj_key, scratch.borrow()),
-                        6 => md.ckks_rescale_assign(&mut me.ct, bits * 3, scratch.borrow()),
+                        4 => md.ckks_rotate_assign(&mut me.ct, rot_k, &cx.atks, sc),
+                        5 => md.ckks_conjugate_assign(&mut me.ct, conj_key, sc),
+                        6 => md.ckks_rescale_assign(&mut me.ct, bits * 3, sc),
                         7 => md.ckks_compact_limbs(&mut me.ct),
                         _ => md.ckks_reallocate_limbs_checked(&mut me.ct, limbs.clamp(1, 10) as usize),
                     };
@@ -449,14 +559,23 @@ pub fn run_program(c: &Case) -> Verdict {
                     got = Some(r);
                 } else {
                     let mut ct = alloc((cap / b) as u8);
+                    let sc = sx.get(|| match k9 {
+                        0 => md.ckks_neg_tmp_bytes(),
+                        1 => md.ckks_square_tmp_bytes(larger(&ct, &ra.ct), &cx.tsk),
+                        2 => md.ckks_mul_pow2_tmp_bytes(),
+                        3 => md.ckks_div_pow2_tmp_bytes(),
+                        4 => md.ckks_rotate_tmp_bytes(larger(&ct, &ra.ct), conj_key),
+                        5 => md.ckks_conjugate_tmp_bytes(larger(&ct, &ra.ct), conj_key),
+                        _ => md.ckks_rescale_tmp_bytes(),
+                    });
                     let r = match k9 {
-                        0 => md.ckks_neg_into(&mut ct, &ra.ct, scratch.borrow()),
-                        1 => md.ckks_square_into(&mut ct, &ra.ct, &cx.tsk, scratch.borrow()),
-                        2 => md.ckks_mul_pow2_into(&mut ct, &ra.ct, bits, scratch.borrow()),
-                        3 => md.ckks_div_pow2_into(&mut ct, &ra.ct, bits, scratch.borrow()),
-                        4 => md.ckks_rotate_into(&mut ct, &ra.ct, rot_k, &cx.atks, scratch.borrow()),
-                        5 => md.ckks_conjugate_into(&mut ct, &ra.ct, conj_key, scratch.borrow()),
-                        _ => md.ckks_rescale_into(&mut ct, bits * 3, &ra.ct, scratch.borrow()),
+                        0 => md.ckks_neg_into(&mut ct, &ra.ct, sc),
+                        1 => md.ckks_square_into(&mut ct, &ra.ct, &cx.tsk, sc),
+                        2 => md.ckks_mul_pow2_into(&mut ct, &ra.ct, bits, sc),
+                        3 => md.ckks_div_pow2_into(&mut ct, &ra.ct, bits, sc),
+                        4 => md.ckks_rotate_into(&mut ct, &ra.ct, rot_k, &cx.atks, sc),
+                        5 => md.ckks_conjugate_into(&mut ct, &ra.ct, conj_key, sc),
+                        _ => md.ckks_rescale_into(&mut ct, bits * 3, &ra.ct, sc),
                     };
                     if r.is_ok() {
                         if let Some(sh) = res_sh {
@@ -553,12 +672,19 @@ pub fn run_program(c: &Case) -> Verdict {
                 if assign {
                     let me = regs[a as usize % 4].as_mut().unwrap();
                     let before = me.ct.meta();
+                    let sc = sx.get(|| match k5 {
+                        0 => md.ckks_add_pt_vec_rnx_tmp_bytes(&me.ct, &me.ct, &prec),
+                        1 => md.ckks_sub_pt_vec_rnx_tmp_bytes(&me.ct, &me.ct, &prec),
+                        2 => md.ckks_mul_pt_vec_rnx_tmp_bytes(&me.ct, &me.ct, &prec),
+                        3 => md.ckks_add_pt_const_tmp_bytes(),
+                        _ => md.ckks_mul_pt_const_tmp_bytes(&me.ct, &me.ct, &prec),
+                    });
                     let r = match k5 {
-                        0 => md.ckks_add_pt_vec_rnx_assign(&mut me.ct, &rnx, prec, scratch.borrow()),
-                        1 => md.ckks_sub_pt_vec_rnx_assign(&mut me.ct, &rnx, prec, scratch.borrow()),
-                        2 => md.ckks_mul_pt_vec_rnx_assign(&mut me.ct, &rnx, prec, scratch.borrow()),
-                        3 => md.ckks_add_pt_const_rnx_assign(&mut me.ct, &cst, prec, scratch.borrow()),
-                        _ => md.ckks_mul_pt_const_rnx_assign(&mut me.ct, &cst, prec, scratch.borrow()),
+                        0 => md.ckks_add_pt_vec_rnx_assign(&mut me.ct, &rnx, prec, sc),
+                        1 => md.ckks_sub_pt_vec_rnx_assign(&mut me.ct, &rnx, prec, sc),
+                        2 => md.ckks_mul_pt_vec_rnx_assign(&mut me.ct, &rnx, prec, sc),
+                        3 => md.ckks_add_pt_const_rnx_assign(&mut me.ct, &cst, prec, sc),
+                        _ => md.ckks_mul_pt_const_rnx_assign(&mut me.ct, &cst, prec, sc),
                     };
                     if r.is_err() && me.ct.meta() != before {
                         return fail(step, op, "metadata-changed-on-error", format!("in-place operation failed but the metadata went from {before:?} to {:?}", me.ct.meta()));
@@ -571,12 +697,19 @@ pub fn run_program(c: &Case) -> Verdict {
                     got = Some(r);
                 } else {
                     let mut ct = alloc((cap / b) as u8);
+                    let sc = sx.get(|| match k5 {
+                        0 => md.ckks_add_pt_vec_rnx_tmp_bytes(&ct, &ra.ct, &prec),
+                        1 => md.ckks_sub_pt_vec_rnx_tmp_bytes(&ct, &ra.ct, &prec),
+                        2 => md.ckks_mul_pt_vec_rnx_tmp_bytes(&ct, &ra.ct, &prec),
+                        3 => md.ckks_add_pt_const_tmp_bytes(),
+                        _ => md.ckks_mul_pt_const_tmp_bytes(&ct, &ra.ct, &prec),
+                    });
                     let r = match k5 {
-                        0 => md.ckks_add_pt_vec_rnx_into(&mut ct, &ra.ct, &rnx, prec, scratch.borrow()),
-                        1 => md.ckks_sub_pt_vec_rnx_into(&mut ct, &ra.ct, &rnx, prec, scratch.borrow()),
-                        2 => md.ckks_mul_pt_vec_rnx_into(&mut ct, &ra.ct, &rnx, prec, scratch.borrow()),
-                        3 => md.ckks_add_pt_const_rnx_into(&mut ct, &ra.ct, &cst, prec, scratch.borrow()),
-                        _ => md.ckks_mul_pt_const_rnx_into(&mut ct, &ra.ct, &cst, prec, scratch.borrow()),
+                        0 => md.ckks_add_pt_vec_rnx_into(&mut ct, &ra.ct, &rnx, prec, sc),
+                        1 => md.ckks_sub_pt_vec_rnx_into(&mut ct, &ra.ct, &rnx, prec, sc),
+                        2 => md.ckks_mul_pt_vec_rnx_into(&mut ct, &ra.ct, &rnx, prec, sc),
+                        3 => md.ckks_add_pt_const_rnx_into(&mut ct, &ra.ct, &cst, prec, sc),
+                        _ => md.ckks_mul_pt_const_rnx_into(&mut ct, &ra.ct, &cst, prec, sc),
                     };
                     if r.is_ok() {
                         if let Some(sh) = res_sh {
@@ -594,7 +727,8 @@ pub fn run_program(c: &Case) -> Verdict {
                 let (x, y) = (get!(a).sh.clone(), get!(rb).sh.clone());
                 let mut ra = regs[a as usize % 4].take().unwrap();
                 let mut rbb = regs[rb as usize % 4].take().unwrap();
-                let r = md.ckks_align_assign(&mut ra.ct, &mut rbb.ct, scratch.borrow());
+                let sc = sx.get(|| md.ckks_align_tmp_bytes());
+                let r = md.ckks_align_assign(&mut ra.ct, &mut rbb.ct, sc);
                 let lb = x.lb.min(y.lb);
                 if r.is_ok() {
                     ra.sh.lb = lb;
@@ -652,7 +786,7 @@ pub fn run_program(c: &Case) -> Verdict {
                 continue;
             }
             let mut pt = alloc_pt_vec_znx((n as u32).into(), (b as u32).into(), CKKSMeta { log_delta: sh.ld, log_budget: dlb });
-            if let Err(e) = md.ckks_decrypt(&mut pt, &reg.ct, &cx.sk, scratch.borrow()) {
+            if let Err(e) = md.ckks_decrypt(&mut pt, &reg.ct, &cx.sk, sx.roomy()) {
                 return fail(step, op, "decrypt-error", format!("register {ri}: ckks_decrypt failed: {e}"));
             }
             let mut rnx = CKKSPlaintextVecRnx::<f64>::alloc(n).unwrap();
@@ -694,7 +828,58 @@ pub fn run_program(c: &Case) -> Verdict {
     if errors_seen > 0 {
         classes.push("has_error_step");
     }
+    for reg in regs.iter() {
+        dump.push(reg.as_ref().map(|r| {
+            use poulpy_hal::layouts::ZnxView;
+            (r.ct.log_delta(), r.ct.log_budget(), r.ct.data().raw().to_vec())
+        }));
+    }
     classes.sort();
     classes.dedup();
     Verdict::pass(executed >= 2 && informative >= 1, &classes)
+}
+
+/// C12 (CKKS layer): the same program three times - with ample scratch, and twice with every
+/// library call given a window of exactly the bytes its own `*_tmp_bytes` query returns (two
+/// garbage fills).  Only programs the C16 oracle accepts are audited.
+pub fn run_c12(c: &Case) -> Verdict {
+    use pzv_common::driver::{guarded, panic_sig};
+    let cx = ctx(c.pset as usize % 2);
+    let mut s0 = Sx::new(false, 0, cx.scratch_bytes);
+    let (v0, d0) = match guarded(|| run_program_sx(c, &mut s0)) {
+        Ok(x) => x,
+        Err(_) => return Verdict::pass(false, &[B_NAME, "skipped:reference_run_fails(C16)"]),
+    };
+    let classes0 = match &v0 {
+        Verdict::Pass(i) => i.classes.clone(),
+        Verdict::Fail { .. } => return Verdict::pass(false, &[B_NAME, "skipped:reference_run_fails(C16)"]),
+    };
+    let mut nonzero = 0usize;
+    for fill in [0x1111_2222_3333_4444u64, 0xDEAD_BEEF_0BAD_F00D] {
+        let mut sx = Sx::new(true, fill, cx.scratch_bytes);
+        match guarded(|| run_program_sx(c, &mut sx)) {
+            Err(p) => {
+                let op = LAST_OP.with(|l| l.get());
+                return Verdict::fail(format!("{op}|exact-scratch-panic|{}", panic_sig(&p)), format!("backend={B_NAME} {op}: panicked with a scratch window of exactly the bytes of its own *_tmp_bytes query (the same program runs with ample scratch): {p}\ncase={c:?}"));
+            }
+            Ok((v, d)) => {
+                let op = LAST_OP.with(|l| l.get());
+                if sx.guard_damaged {
+                    return Verdict::fail("ckks|guard-damaged", format!("backend={B_NAME}: bytes outside an exact scratch window were modified (last op {op})\ncase={c:?}"));
+                }
+                if let Verdict::Fail { sig, detail } = v {
+                    return Verdict::fail(format!("{}|result-depends-on-scratch-size-or-content", sig.split('|').next().unwrap_or("")), format!("backend={B_NAME}: the program passes the C16 oracle with ample scratch and fails it with exact scratch windows: {sig}: {detail}"));
+                }
+                if d != d0 {
+                    return Verdict::fail("ckks|result-depends-on-scratch-size-or-content", format!("backend={B_NAME}: final registers differ between ample scratch and exact garbage-filled scratch windows\ncase={c:?}"));
+                }
+                nonzero = nonzero.max(sx.nonzero_windows);
+            }
+        }
+    }
+    let mut cl: Vec<&str> = classes0.iter().map(|x| x.as_str()).filter(|x| !x.starts_with("tolerance")).collect();
+    if nonzero >= 2 {
+        cl.push("exact_windows>=2");
+    }
+    Verdict::pass(nonzero >= 1, &cl)
 }
